@@ -415,6 +415,79 @@ def context_forwarding_rule(repo: Repo, rep: Report, rid: str) -> None:
               "class is emitted and the hint names '__anonymous_0__', which the cstruct object does not provide", st.loc())
 
 
+def class_body_rule(repo: Repo, rep: Report, rid: str) -> None:
+    rep.rule(rid, "every class a stub generator opens has a body whatever the definition contains: a header 'class X(...):' is followed by an "
+                  "unconditional body line, or by a fallback ('...' / 'pass') for the case that the member / field loop emits nothing (an enum without "
+                  "members, a cstruct without definitions)")
+    mod = repo.module("tools/stubgen.py")
+    n = 0
+    for q, fi in mod.functions.items():
+        if not q.startswith("generate_") or "." in q:
+            continue
+        pm0 = parent_map(fi.node)
+        headers = [x for x in walk_body(fi.node.body) if isinstance(x, (ast.JoinedStr, ast.Constant)) and not isinstance(pm0.get(x), (ast.JoinedStr, ast.FormattedValue)) and
+                   ("".join(str(v.value) for v in x.values if isinstance(v, ast.Constant)) if isinstance(x, ast.JoinedStr) else (x.value if isinstance(x.value, str) else "")).lstrip().startswith("class ")]
+        for h in headers:
+            text = "".join(str(v.value) for v in h.values if isinstance(v, ast.Constant)) if isinstance(h, ast.JoinedStr) else h.value
+            n += 1
+            if text.rstrip().endswith("...") or text.rstrip().endswith("pass"):
+                rep.ok(rid, f"{fi.key}:class body", "body on the header line", fi.loc(h))
+                continue
+            # an unconditional body line: an append / list element of an indented constant or textwrap.indent(...) call outside every loop / comprehension / if
+            pm = parent_map(fi.node)
+
+            def unconditional(node: ast.AST) -> bool:
+                p_ = pm.get(node)
+                while p_ is not None and p_ is not fi.node:
+                    if isinstance(p_, (ast.For, ast.While, ast.If, ast.ListComp, ast.GeneratorExp, ast.comprehension, ast.Try)):
+                        return False
+                    p_ = pm.get(p_)
+                return True
+
+            def is_body_line(x: ast.AST) -> bool:
+                if isinstance(x, ast.Call) and norm(x.func) == "textwrap.indent":
+                    return True
+                t_ = "".join(str(v.value) for v in x.values if isinstance(v, ast.Constant)) if isinstance(x, ast.JoinedStr) else (x.value if isinstance(x, ast.Constant) and isinstance(x.value, str) else None)
+                return bool(t_) and t_.startswith("    ") and t_.strip() != ""
+
+            always = [x for x in walk_body(fi.node.body) if is_body_line(x) and x is not h and unconditional(x)]
+            fallback = [x for x in walk_body(fi.node.body) if isinstance(x, ast.If) and isinstance(x.test, ast.UnaryOp) and isinstance(x.test.op, ast.Not)
+                        and any(isinstance(c, (ast.Constant, ast.JoinedStr)) and ("..." in norm(c) or "pass" in norm(c)) for s_ in x.body for c in ast.walk(s_))]
+            rep.check(bool(always) or bool(fallback), rid, f"{fi.key}:class body", "an unconditional body line or an empty-case fallback exists",
+                      f"{q} opens a class ('{' '.join(text.split())[:40]}') whose only body lines come from a loop over the definition's members: for an empty one "
+                      "(enum E : uint8 { };) the stub is 'class E(Enum):' with no body - not valid Python", fi.loc(h))
+    rep.floor(rid, "class headers in stub generators", n, 3)
+    # names synthesised for array / pointer types are never emitted as a name: the alias-to-an-earlier-declaration arm must not see them
+    gs = repo.func("tools/stubgen.py", "generate_cstruct_stub")
+    chain_: list[ast.If] = []
+    first = next((x for x in walk_body(gs.node.body) if isinstance(x, ast.If) and any(isinstance(c, ast.Compare) and "defined_names" in norm(c) for c in ast.walk(x.test))), None)
+    # find the head of the elif chain that contains it
+    for x in walk_body(gs.node.body):
+        if isinstance(x, ast.If):
+            cur, seq = x, []
+            while isinstance(cur, ast.If):
+                seq.append(cur)
+                cur = cur.orelse[0] if len(cur.orelse) == 1 and isinstance(cur.orelse[0], ast.If) else None
+            if first is not None and any(c is first for c in seq) and len(seq) > len(chain_):
+                chain_ = seq
+    idx_alias = next((i for i, c in enumerate(chain_) if "defined_names" in norm(c.test)), None)
+    idx_array = next((i for i, c in enumerate(chain_) if "BaseArray" in norm(c.test) or "Pointer" in norm(c.test)), None)
+    adds = [c for c in walk_body(gs.node.body) if isinstance(c, ast.Call) and norm(c.func).endswith("defined_names.add")]
+    guarded_add = bool(adds) and all(any(isinstance(p_, ast.If) and ("BaseArray" in norm(p_.test) or "Pointer" in norm(p_.test)) for p_ in _ancestors(gs.node, c)) for c in adds)
+    rep.check(idx_alias is None or (idx_array is not None and idx_array < idx_alias) or guarded_add, rid, f"{gs.key}:synthesised alias",
+              "array / pointer typedefs are handled before the 'seen before' alias arm (or never recorded as seen)",
+              "a second typedef of the same array or pointer type takes the 'already declared' arm and is emitted as an alias to the synthesised type name "
+              "('arr2: TypeAlias = uint8[4]', 'p2: TypeAlias = uint8*'), which no stub declares and, for pointers, is not even valid Python", gs.loc(first) if first else gs.loc())
+
+
+def _ancestors(root: ast.AST, node: ast.AST):
+    pm = parent_map(root)
+    p_ = pm.get(node)
+    while p_ is not None:
+        yield p_
+        p_ = pm.get(p_)
+
+
 def run(repo: Repo, rep: Report, tier: str) -> None:
     template_rule(repo, rep, "C20.R1")
     sanitise_rule(repo, rep, "C20.R2")
@@ -429,5 +502,7 @@ def run(repo: Repo, rep: Report, tier: str) -> None:
 
     memo_rule(repo, rep, "C20.R10")
     context_forwarding_rule(repo, rep, "C20.R11")
+    class_body_rule(repo, rep, "C20.R12")
+
 
 
